@@ -1,5 +1,6 @@
 import AsyncVerif.Proofs.Core
 import AsyncVerif.Impl.Aggregations
+import AsyncVerif.Proofs.Select
 /-!
 # Fuel adequacy: every fuelled loop of the tool models terminates within a bound read off the world
 
@@ -925,17 +926,52 @@ theorem sorted_fuel_adequate (fn : Option Nat) (reverse : Bool) (s : Nat) (w : W
   refine Triple.trivial_post (Tame.fueled ?_)
   tame
 
+theorem Tame.nbFirst (fn : Option Nat) (s : Nat) : ∀ k acc, Tame (Std.nbFirst fn s k acc) := by
+  intro k
+  induction k with
+  | zero => intro acc; unfold Std.nbFirst; exact Tame.pure _
+  | succ k ih =>
+    intro acc
+    unfold Std.nbFirst
+    refine Tame.bind (Tame.pull s) (fun o => ?_)
+    cases o with
+    | none => exact Tame.pure _
+    | some x => exact Tame.bind (Tame.keyOf fn x) (fun _ => ih _)
+
+theorem nbScan_triple (c : Sel.Cfg) (fn : Option Nat) (s : Nat) : ∀ fuel (st : List Sel.VE × Int),
+    Triple (fun w => slen s w < fuel) (Std.nbScan c fn s st fuel) (fun _ _ => True) := by
+  intro fuel
+  induction fuel with
+  | zero => intro t; exact Triple.zero_fuel s _ _
+  | succ n ih =>
+    intro t
+    unfold Std.nbScan
+    refine Triple.bind_pull_lt s n ?_ ?_
+    · tpure
+    · intro x
+      tstep
+      refine Triple.bind_tame (Tame.liftExc _ (Sel.acceptV_ne_oof _ _ _ _)) (Stable.slen_lt _ _) ?_
+      intro st'
+      exact ih _
+
+theorem nBestAlgo_triple (c : Sel.Cfg) (n : Nat) (fn : Option Nat) (s fuel : Nat) :
+    Triple (fun w => slen s w < fuel) (Std.nBestAlgo c n fn s fuel) (fun _ _ => True) := by
+  unfold Std.nBestAlgo
+  refine Triple.bind_tame (Tame.nbFirst fn s n []) (Stable.slen_lt _ _) ?_
+  intro first
+  refine Triple.ite ?_ ?_
+  · tpure
+  · refine Triple.bind_tame (Tame.liftExc _ (Sel.heapifyV_ne_oof _ _)) (Stable.slen_lt _ _) ?_
+    intro h0
+    refine Triple.bind (nbScan_triple c fn s fuel _) ?_
+    intro st
+    tpure
+
 theorem nBest_fuel_adequate (largest : Bool) (n : Nat) (fn : Option Nat) (s : Nat) (w : World) :
     ∀ fuel, fuel ≥ fuelBound1 s w → (Impl.nBest largest n fn s fuel w).1 ≠ .error .outOfFuel := by
   intro fuel h
-  unfold Impl.nBest Std.nBest
-  refine scoped_adequate (Q := fun _ _ => True) ?_ h
-  refine Triple.ite ?_ ?_
-  · tpure
-  · refine Triple.bind (collectKeyed_triple fn s fuel []) ?_
-    intro keyed
-    refine Triple.trivial_post (Tame.fueled ?_)
-    tame
+  unfold Impl.nBest
+  exact scoped_adequate (nBestAlgo_triple _ n fn s fuel) h
 
 /-! ## Several sources: the measure is the sum of the script lengths -/
 
